@@ -21,8 +21,8 @@ struct KdfCall {
     std::vector<uint8_t> pw, salt; size_t pwlen = 0, saltlen = 0; uint64_t iterations = 0; uint8_t* key = nullptr; size_t keylen = 0;
     const uint8_t* pw_ptr = nullptr;
 };
-struct Block { size_t size; uint64_t serial; };
-struct Freed { void* ptr; size_t size; std::vector<uint8_t> content; size_t mz_index; };
+struct Block { size_t size; uint64_t serial; size_t mz_at_alloc = 0; };   // mz_at_alloc: number of logged wipe calls when the block was handed out
+struct Freed { void* ptr; size_t size; std::vector<uint8_t> content; size_t mz_index; size_t mz_at_alloc = 0; };
 struct MzCall { void* ptr; size_t len; };
 
 enum KdfMode { KDF_FIXED, KDF_MIX, KDF_NOTOUCH };
@@ -126,7 +126,7 @@ template <int S> void* f_alloc(size_t n) {
     if (k.recycle && k.track && !k.pool.empty() && k.pool.back().second == n) { p = k.pool.back().first; k.pool.pop_back(); ASAN_UNPOISON_MEMORY_REGION(p, n); k.recycled++; }
     else { p = malloc(n); if (!p) abort(); }
     memset(p, k.garbage, n); // fresh memory is never zero
-    if (k.track) k.live[p] = Block{n, ++k.serial};
+    if (k.track) k.live[p] = Block{n, ++k.serial, k.mz.size()};
     return p;
 }
 template <int S> void f_free(void* p) {
@@ -137,7 +137,7 @@ template <int S> void f_free(void* p) {
         char b[96]; snprintf(b, sizeof b, "free(%p) in set %d: pointer is not a live block of this allocator%s", p, S, p ? "" : " (NULL)");
         k.ledger_errors.push_back(b); return; // do not pass unknown pointers on
     }
-    Freed f; f.ptr = p; f.size = it->second.size; f.content.assign((uint8_t*)p, (uint8_t*)p + f.size); f.mz_index = k.mz.size();
+    Freed f; f.ptr = p; f.size = it->second.size; f.content.assign((uint8_t*)p, (uint8_t*)p + f.size); f.mz_index = k.mz.size(); f.mz_at_alloc = it->second.mz_at_alloc;
     k.freed.push_back(std::move(f));
     memset(p, 0xDD, it->second.size);
     size_t n = it->second.size; k.live.erase(it);
